@@ -184,6 +184,38 @@ def _compose_checks_tags(chk, prog, comp):
     return True, ""
 
 
+def loader_overrides_keep_valid_documents(chk, rule="O18.10"):
+    """O18.10 (shared with C05 / C13): what the loader overrides to look at tags -- flatten_mapping, compose_node -- still does
+    PyYAML's part for a document WITHOUT any offending tag: a merge is still flattened (the override delegates to PyYAML's
+    flatten_mapping and rejects nothing), a composed node is returned as PyYAML composed it"""
+    prog = chk.program
+    cls = prog.classes.get(LOADER if LOADER else "cobald.daemon.core.config:COBalDLoader")
+    if cls is None:
+        cfg = prog.modules.get("cobald.daemon.core.config")
+        r = prog.resolve(cfg, "COBalDLoader") if cfg is not None else None
+        cls = prog.classes.get(r or "")
+    if cls is None:
+        raise Undecided("the configuration loader class was not found")
+    n = 0
+    ok = True
+    for mname, judge in (("flatten_mapping", _merge_tags_checked), ("compose_node", _compose_checks_tags)):
+        f = None
+        for q in cls.mro:
+            c = prog.classes.get(q)
+            f = prog.pick(c.methods.get(mname, [])) if c is not None else None
+            if f is not None:
+                break
+        if f is None:
+            continue
+        n += 1
+        good, why = judge(chk, prog, f)
+        if not good and ("without any foreign tag" in why or "does not delegate" in why or "a registered tag" in why or "the merge key" in why or "the value key" in why or "instead of the composed node" in why):
+            chk.bad(rule, f.qual, "%s: valid documents (a mapping with a merge key, any node with a registered tag) no longer load as PyYAML loads them" % why, node=f.node, stmt="loader-override-breaks-valid %s" % mname)
+            ok = False
+    if ok:
+        chk.ok(rule, cls.qual, "%d loader overrides: without an offending tag each does exactly PyYAML's part (delegates / returns the composed node, rejects nothing)" % n)
+
+
 def _compose_gate(chk, prog, cls):
     """(holds, why, override): does the loader reject, when a node is COMPOSED, every tag without an exact constructor?"""
     comp = None
@@ -564,6 +596,7 @@ def run(chk):
                 stmt="unconstructed-node-tag-ignored",
                 input="a: !!str {=: !!python/name:os.system x}",
             )
+    # (O18.10, "valid documents still load through the loader's overrides", belongs to C05 / C13 and is run there)
     # ---- O18.5 trusted-base cross-read -------------------------------------------------------
     for fact, confirmed in chk.facts.items():
         if confirmed is False:
